@@ -367,6 +367,12 @@ func (s *FileSystemSigner) loadKeys(passphrase []byte) error {
 		return fmt.Errorf("failed to unmarshal public key: %w", err)
 	}
 
+	// The public key is stored in clear next to the sealed private key and is not
+	// authenticated: refuse a file whose public key is not the one of its private key.
+	if !privKey.GetPublic().Equals(pubKey) {
+		return fmt.Errorf("key file is corrupted: public key does not match the private key")
+	}
+
 	// Set the keys
 	s.privateKey = privKey
 	s.publicKey = pubKey
